@@ -5,6 +5,7 @@ import KV.Wire
 import KV.EmittedF
 import KV.T1FExec
 import KV.TypeConv
+import KV.GenConv
 /-! Line-protocol driver for the executable models: one request per line on stdin, one canonical answer
     line on stdout.  The correspondence check pipes the same lines to the implementation's drivers
     (verif-tagged test files in /repo) and diffs the two streams.
@@ -14,6 +15,7 @@ import KV.TypeConv
       V <pre> ... | <op> ...          VarPool history (ops n:<base> t:<TypeName> c:<TypeName>)
       I path=name path=name ...       TypeConverter.AddImport history
       T <cur|-> | <package names> | <type s-expression>   TypeConverter.TypeToExpr (KV/TypeConv.lean)
+      G <cur> | <package names> | <registered names> | <type>   createASTTypeExpr (KV/GenConv.lean)
       F crash|fault                   witnesses of the install step list (failure path of C15)
       X <decl> | fails <decl idx>.. | cancel <0|1>   outcomes the T1F semantics allows for the emitted program
       XS <same>                       the same, followed by ` states=<n>` (states expanded by the search)
@@ -115,20 +117,20 @@ def handleImports (line : String) : String :=
         p ++ "=" ++ (if n == lastPathElement p then "" else n))
       "I " ++ " ".intercalate names ++ " | " ++ " ".intercalate (sortStrs specs)
 
-/-! `T` lines: s-expression of a type → `TConv.Ty` -/
+/-! `T` / `G` lines: s-expression of a type → `GConv.Ty` (converted to `GConv.Ty` for `T` lines) -/
 mutual
 /-- (fuel, tokens) → (type, remaining tokens) -/
-def parseTyS : Nat → List String → Option (TConv.Ty × List String)
+def parseTyS : Nat → List String → Option (GConv.Ty × List String)
   | 0, _ => none
   | fuel + 1, toks =>
     match toks with
     | [] => none
-    | "ie" :: rest => some (.node .ifaceEmpty [], rest)
-    | "il" :: rest => some (.node .ifaceLit [], rest)
+    | "ie" :: rest => some (.node (.iface []) [], rest)
+    | "il" :: rest => some (.node (.iface [0]) [.node (.func 0) []], rest)
     | "(" :: kind :: rest =>
-      let withKids := fun (tag : TConv.Tag) (rest : List String) (arity : Option Nat) =>
+      let withKids := fun (tag : GConv.Tag) (rest : List String) (arity : Option Nat) =>
         match parseKids fuel rest with
-        | some (ks, rest') => if arity.all (· == ks.length) then some (TConv.Ty.node tag ks, rest') else none
+        | some (ks, rest') => if arity.all (· == ks.length) then some (GConv.Ty.node tag ks, rest') else none
         | none => none
       match kind with
       | "n" => match rest with
@@ -157,6 +159,12 @@ def parseTyS : Nat → List String → Option (TConv.Ty × List String)
             | none => none
           | none => none
         | _ => none
+      | "i" => match rest with
+        | spec :: rest' =>
+          match (spec.splitOn ",").mapM (fun m => m.toNat?) with
+          | some ms => withKids (.iface ms) rest' (some ms.length)
+          | none => none
+        | _ => none
       | "st" => match rest with
         | spec :: rest' =>
           let fs := if spec == "-" then some [] else
@@ -176,7 +184,7 @@ def parseTyS : Nat → List String → Option (TConv.Ty × List String)
         | some k => if k < 8 then some (.node (.basic k) [], rest) else none
         | none => none
       else none
-def parseKids : Nat → List String → Option (List TConv.Ty × List String)
+def parseKids : Nat → List String → Option (List GConv.Ty × List String)
   | 0, _ => none
   | fuel + 1, toks =>
     match toks with
@@ -191,12 +199,43 @@ def parseKids : Nat → List String → Option (List TConv.Ty × List String)
 end
 
 /-- variadic parameters only as the last parameter of a function (what the implementation-side driver accepts) -/
-partial def variadicOk : Bool → TConv.Ty → Bool
+partial def variadicOk : Bool → GConv.Ty → Bool
   | allowed, .node tag kids =>
     (match tag with | .variadic => allowed | _ => true) &&
     (match tag with
      | .func n => (kids.zipIdx).all (fun (k, i) => variadicOk (i + 1 == n) k)
      | _ => kids.all (variadicOk false))
+
+
+mutual
+/-- the migrate-side model does not look inside a non-empty interface literal -/
+def toTConv : GConv.Ty → TConv.Ty
+  | .node tag kids =>
+    match tag with
+    | .basic n => .node (.basic n) []
+    | .named p n => .node (.named p n) (toTConvs kids)
+    | .ptr => .node .ptr (toTConvs kids)
+    | .slice => .node .slice (toTConvs kids)
+    | .arr n => .node (.arr n) (toTConvs kids)
+    | .map => .node .map (toTConvs kids)
+    | .chan d => .node (.chan d) (toTConvs kids)
+    | .func n => .node (.func n) (toTConvs kids)
+    | .variadic => .node .variadic (toTConvs kids)
+    | .struct fs => .node (.struct fs) (toTConvs kids)
+    | .iface [] => .node .ifaceEmpty []
+    | .iface _ => .node .ifaceLit []
+def toTConvs : List GConv.Ty → List TConv.Ty
+  | [] => []
+  | t :: ts => toTConv t :: toTConvs ts
+end
+
+/-- interface methods are function types, sorted by name without repetition, names below 10 -/
+partial def ifacesOk : GConv.Ty → Bool
+  | .node tag kids =>
+    (match tag with
+     | .iface ms => ms.all (· < 10) && (ms.zip (ms.drop 1)).all (fun (a, b) => a < b) &&
+                    kids.all (fun k => match k with | .node (.func _) _ => true | _ => false)
+     | _ => true) && kids.all ifacesOk
 
 def handleTypeConv (line : String) : String :=
   match line.splitOn "|" with
@@ -211,10 +250,32 @@ def handleTypeConv (line : String) : String :=
       match parseTyS (toks.length + 2) toks with
       | some (t, []) =>
         if !variadicOk false t then "BAD" else
-        match TConv.render cur (fun p => names.getD p "") { imports := [], used := [], counters := [] } t with
+        match TConv.render cur (fun p => names.getD p "") { imports := [], used := [], counters := [] } (toTConv t) with
         | none => "FUEL"
         | some (tc, e) =>
           "T " ++ TConv.exStr e ++ " | " ++ " ".intercalate (sortStrs (tc.imports.map (fun (p, n) => "p" ++ toString p ++ "=" ++ n)))
+      | _ => "BAD"
+  | _ => "BAD"
+
+def handleGenConv (line : String) : String :=
+  match line.splitOn "|" with
+  | [c, names, pre, ty] =>
+    let names := words names
+    match c.trimAscii.toString.toNat? with
+    | none => "BAD"
+    | some cur =>
+      if cur ≥ names.length then "BAD" else
+      let toks := words ty
+      match parseTyS (toks.length + 2) toks with
+      | some (t, []) =>
+        if !variadicOk false t || !ifacesOk t then "BAD" else
+        let p0 := (words pre).foldl (fun p b => match VP.getNameFix p b with
+          | some (p', _) => p'
+          | none => p) VP.seedPool
+        match GConv.render cur (fun p => names.getD p "") { pool := p0, imports := [] } t with
+        | none => "FUEL"
+        | some (st, e) =>
+          "G " ++ GConv.exStr e ++ " | " ++ " ".intercalate (sortStrs (st.imports.map (fun (p, n) => "p" ++ toString p ++ "=" ++ n)))
       | _ => "BAD"
   | _ => "BAD"
 
@@ -389,6 +450,7 @@ def handle (line : String) : String :=
   else if line.startsWith "I " then handleImports (line.drop 2).toString
   else if line.startsWith "F " then handleInstall (line.drop 2).trimAscii.toString
   else if line.startsWith "T " then handleTypeConv (line.drop 2).toString
+  else if line.startsWith "G " then handleGenConv (line.drop 2).toString
   else if line.startsWith "W " then handleWire (line.drop 2).toString
   else if line.startsWith "X " then handleOutcomes false (line.drop 2).toString
   else if line.startsWith "XS " then handleOutcomes true (line.drop 3).toString
